@@ -1,1 +1,205 @@
 //! shared helpers for the chk-exec checks
+//!
+//! [`par_bfs`] is the level-synchronous, parallel variant of
+//! `mc_core::explore::bfs_histories`: a state is the operation history that
+//! reaches it; every (frontier history, operation) pair is executed on a fresh
+//! subject (`run`), the oracle is evaluated inside `run`, and states are
+//! de-duplicated by a canonical key supplied by the harness.  The frontier is
+//! processed in chunks with rayon; results are merged sequentially in
+//! (frontier index, operation index) order so that the set of states, the first
+//! history reaching each state and the first history exhibiting each finding are
+//! deterministic.
+
+use mc_core::rayon::prelude::*;
+use std::collections::HashSet;
+use std::hash::Hash;
+
+/// Result of executing one history on a fresh subject.
+pub enum Visit<K> {
+    /// Oracle satisfied (or only *keyed findings* raised, see below); canonical
+    /// key of the reached state.  A finding `(key, what)` is a violation that is
+    /// reported once per `key` (first = shortest history wins) and does not stop
+    /// the exploration below this history.
+    State { key: K, findings: Vec<(String, String)> },
+    /// Last operation is not enabled in the state reached by the prefix.
+    Disabled,
+    /// Oracle violated; the history is reported and not extended.
+    Violation(String),
+}
+
+#[derive(Debug, Default, Clone)]
+pub struct BfsStats {
+    pub states: u64,
+    pub transitions: u64,
+    pub max_depth: usize,
+    pub complete: bool,
+    /// (new states, transitions) per depth, depth 1 first.
+    pub per_depth: Vec<(u64, u64)>,
+}
+
+pub struct BfsCallbacks<'a, Op, K> {
+    /// Called (sequentially) for every newly discovered state.
+    pub on_state: &'a mut dyn FnMut(&[Op], &K),
+    /// Called (sequentially) for every violating history.
+    pub on_violation: &'a mut dyn FnMut(&[Op], String),
+    /// Called (sequentially) for every keyed finding.
+    pub on_finding: &'a mut dyn FnMut(&[Op], String, String),
+}
+
+/// Parallel breadth-first search over operation histories.
+///
+/// * `prefilter(parent_key, op)` — cheap static enabledness test on the
+///   canonical key of the parent state (`false` = certainly disabled, the
+///   implementation is not run).
+/// * `run(history)` — build a fresh subject + reference model, replay the
+///   history, check the oracle, return the canonical key of the final state.
+pub fn par_bfs<Op, K>(
+    ops: &[Op],
+    max_depth: usize,
+    chunk: usize,
+    prefilter: impl Fn(&K, &Op) -> bool + Sync,
+    run: impl Fn(&[Op]) -> Visit<K> + Sync,
+    stop: impl Fn() -> bool + Sync,
+    cb: BfsCallbacks<'_, Op, K>,
+) -> BfsStats
+where
+    Op: Clone + Send + Sync,
+    K: Hash + Eq + Clone + Send + Sync,
+{
+    let mut stats = BfsStats { complete: true, ..Default::default() };
+    let mut seen: HashSet<K> = HashSet::new();
+    let mut frontier: Vec<(Vec<Op>, K)> = vec![];
+    match run(&[]) {
+        Visit::State { key, findings } => {
+            (cb.on_state)(&[], &key);
+            for (k, w) in findings {
+                (cb.on_finding)(&[], k, w);
+            }
+            seen.insert(key.clone());
+            frontier.push((vec![], key));
+            stats.states = 1;
+        }
+        Visit::Disabled => return stats,
+        Visit::Violation(w) => {
+            (cb.on_violation)(&[], w);
+            return stats;
+        }
+    }
+    for depth in 1..=max_depth {
+        let mut next: Vec<(Vec<Op>, K)> = vec![];
+        let mut new_states = 0u64;
+        let mut transitions = 0u64;
+        for part in frontier.chunks(chunk.max(1)) {
+            if stop() {
+                stats.complete = false;
+                stats.per_depth.push((new_states, transitions));
+                stats.states += new_states;
+                stats.transitions += transitions;
+                return stats;
+            }
+            let results: Vec<Vec<(usize, Visit<K>)>> = part
+                .par_iter()
+                .map(|(hist, key)| {
+                    let mut out = vec![];
+                    let mut h = Vec::with_capacity(hist.len() + 1);
+                    h.extend_from_slice(hist);
+                    for (oi, op) in ops.iter().enumerate() {
+                        if !prefilter(key, op) {
+                            continue;
+                        }
+                        h.push(op.clone());
+                        let v = run(&h);
+                        h.pop();
+                        if !matches!(v, Visit::Disabled) {
+                            out.push((oi, v));
+                        }
+                    }
+                    out
+                })
+                .collect();
+            for ((hist, _), rs) in part.iter().zip(results) {
+                for (oi, v) in rs {
+                    transitions += 1;
+                    let mut h = hist.clone();
+                    h.push(ops[oi].clone());
+                    match v {
+                        Visit::State { key, findings } => {
+                            for (k, w) in findings {
+                                (cb.on_finding)(&h, k, w);
+                            }
+                            if !seen.contains(&key) {
+                                seen.insert(key.clone());
+                                (cb.on_state)(&h, &key);
+                                new_states += 1;
+                                next.push((h, key));
+                            }
+                        }
+                        Visit::Violation(w) => (cb.on_violation)(&h, w),
+                        Visit::Disabled => {}
+                    }
+                }
+            }
+        }
+        stats.per_depth.push((new_states, transitions));
+        stats.states += new_states;
+        stats.transitions += transitions;
+        if !next.is_empty() {
+            stats.max_depth = depth;
+        }
+        frontier = next;
+        if frontier.is_empty() {
+            break;
+        }
+    }
+    stats
+}
+
+/// Injection of OS-level write failures with `RLIMIT_FSIZE`.
+///
+/// The soft file-size limit of the process is lowered around one write call so
+/// that `write(2)` on a regular file fails with `EFBIG` once the file would grow
+/// beyond the limit (bytes below the limit are still written: a *partial*
+/// write).  `SIGXFSZ` is ignored.  The limit is process wide, therefore *every*
+/// file write of a harness must go through [`fsize::with_limit`], which
+/// serialises them behind one lock.
+pub mod fsize {
+    use std::sync::Mutex;
+
+    static LOCK: Mutex<()> = Mutex::new(());
+
+    /// Ignore `SIGXFSZ` (default action: terminate) — call once at start-up.
+    pub fn init() {
+        unsafe {
+            libc::signal(libc::SIGXFSZ, libc::SIG_IGN);
+        }
+    }
+
+    struct Restore(libc::rlimit);
+    impl Drop for Restore {
+        fn drop(&mut self) {
+            unsafe {
+                libc::setrlimit(libc::RLIMIT_FSIZE, &self.0);
+            }
+        }
+    }
+
+    /// Run `f` holding the file-write lock; with `Some(l)` the soft
+    /// `RLIMIT_FSIZE` is `l` bytes while `f` runs and is restored afterwards
+    /// (also on unwind).
+    pub fn with_limit<T>(limit: Option<u64>, f: impl FnOnce() -> T) -> T {
+        let _g = LOCK.lock().unwrap_or_else(|e| e.into_inner());
+        match limit {
+            None => f(),
+            Some(l) => {
+                let mut old = libc::rlimit { rlim_cur: 0, rlim_max: 0 };
+                let rc = unsafe { libc::getrlimit(libc::RLIMIT_FSIZE, &mut old) };
+                assert!(rc == 0, "getrlimit failed");
+                let _restore = Restore(old);
+                let new = libc::rlimit { rlim_cur: l as libc::rlim_t, rlim_max: old.rlim_max };
+                let rc = unsafe { libc::setrlimit(libc::RLIMIT_FSIZE, &new) };
+                assert!(rc == 0, "setrlimit failed");
+                f()
+            }
+        }
+    }
+}
